@@ -26,6 +26,11 @@ FI3 = {"flavor": "f64", "kind": "counter", "counter": False, "threads": ["t1", "
 II3 = dict(FI3, flavor="int", kind="intcounter")
 
 
+# lock-freedom: one inc_by() whose compare-exchange loses 14 times in a row against a stream of increments
+FS = {"flavor": "f64", "kind": "counter", "counter": False, "threads": ["t1", "t2"], "starve": [("t1", 14)], "budget": 6000,
+      "scripts": {"t1": [{"k": "incby", "v": 1}, {"k": "get"}], "t2": [{"k": "incby", "v": 2}] * 16}}
+
+
 def run(ctx):
     exe = build_harness()
     stats, samples = new_stats(), []
@@ -40,7 +45,9 @@ def run(ctx):
         run_scenario(ctx, "C01", exe, FLs, "FLs", stats, samples, *O, model=True, nrandom=0, kinds=["counter"])
         run_scenario(ctx, "C01", exe, FI3, "FI3", stats, samples, *O, model=True, nrandom=300, kinds=["counter", "countervec_child"])
         run_scenario(ctx, "C01", exe, II3, "II3", stats, samples, *O, model=False, nrandom=100, kinds=["intcounter"])
+        run_scenario(ctx, "C01", exe, FS, "FS", stats, samples, *O, model=False, nrandom=10, kinds=["counter"], check=False)
     else:
+        run_scenario(ctx, "C01", exe, FS, "FS", stats, samples, *O, model=False, nrandom=300, kinds=["counter", "countervec_child"], check=False)
         run_scenario(ctx, "C01", exe, FI3, "FI3", stats, samples, *O, model=True, nrandom=5000, kinds=["counter", "countervec_child"])
         run_scenario(ctx, "C01", exe, II3, "II3", stats, samples, *O, model=True, nrandom=2000, kinds=["intcounter", "intcountervec_child"])
         for sc, lb in ((F2s, "F2s"), (FLs, "FLs"), (dict(F3, scale=2.0 ** -60), "F3s"), (dict(F2, scale=2.0 ** 900), "F2h")):
